@@ -103,7 +103,7 @@ def _tag_on(text_lines, gen_line):
     return None
 
 
-def run_unit(unit, variant, multiple_errors=20, extra_args=()):
+def run_unit(unit, variant, multiple_errors=20, extra_args=(), rlimit=None):
     ur = UnitRun(unit, variant)
     t0 = time.time()
     tmpl = os.path.join(VERIF, "units", unit, "unit.rs")
@@ -119,7 +119,7 @@ def run_unit(unit, variant, multiple_errors=20, extra_args=()):
     with open(path, "w") as f:
         f.write(b.text)
     cmd = ["verus", fname, "--output-json", "--time", "--multiple-errors", str(multiple_errors),
-           "--error-format=json", "--rlimit", RLIMIT] + list(extra_args)
+           "--error-format=json", "--rlimit", str(rlimit or RLIMIT)] + list(extra_args)
     ur.cmd = " ".join(cmd)
     try:
         p = subprocess.run(cmd, cwd=BUILD, capture_output=True, text=True, timeout=int(os.environ.get("VERIF_VERUS_TIMEOUT", "900")))
